@@ -305,6 +305,40 @@ fn node_scenario(a: &[&str]) -> String {
                         r
                     }
                 }
+                "I" => {
+                    // I.<k>.<dst>.<src>.<part>.<value>: captured HANDSHAKE datagram k with the two-byte length field of its
+                    // <part>-th part (in wire order) set to <value>; "nodg" if k is no handshake datagram, has no such part or
+                    // already carries that value
+                    let k: usize = num(p[1]);
+                    if k >= w.sent.len() {
+                        return "nodg".into();
+                    }
+                    let mut data = w.sent[k].2.clone();
+                    let part: usize = num(p[4]);
+                    let value: u16 = num(p[5]);
+                    if data.len() < 10 || data[0] != 0xff {
+                        return "nodg".into();
+                    }
+                    let mut pos = 9; // marker byte, key salt, key hash
+                    let mut idx = 0;
+                    loop {
+                        if pos + 3 > data.len() || data[pos] == 0 {
+                            return "nodg".into();
+                        }
+                        let len = ((data[pos + 1] as usize) << 8) | data[pos + 2] as usize;
+                        if idx == part {
+                            if len == value as usize {
+                                return "nodg".into();
+                            }
+                            data[pos + 1] = (value >> 8) as u8;
+                            data[pos + 2] = value as u8;
+                            break;
+                        }
+                        pos += 3 + len;
+                        idx += 1;
+                    }
+                    w.deliver(num(p[2]), num(p[3]), data)
+                }
                 "W" => w.deliver(num(p[1]), num(p[2]), unhex(p[3])),
                 "Y" => {
                     // Y.<dst>.<src>.<cipher 1|2|3>.<key id byte>.<nonce half 0|1>.<key byte>.<plaintext hex>
